@@ -510,10 +510,16 @@ def check_batch(ctx, kind, texts, label, stats):
                               no_input=True)
 
 
+def load_catalogue():
+    path = os.path.join(common.VERIF, "corpus", PROP, "catalogue.sam")
+    return open(path, encoding="utf-8").read() if os.path.exists(path) else None
+
+
 def run(ctx):
     rng = ctx.rng
-    extractor_ok = c05.run_extractor(ctx)
-    stats = {"reported": 0, "walk_valid": 0, "walk_syntax_error": 0, "nodes": 0}
+    extractor_ok = c05.run_extractor(ctx, scripts=("c05_keywords.py",))
+    stats = {"reported": 0, "walk_valid": 0, "walk_syntax_error": 0, "nodes": 0, "node_hist": {}, "svc_hist": {},
+             "svc_clean": 0, "svc_with_errors": 0}
 
     def search():
         return False
@@ -523,25 +529,32 @@ def run(ctx):
     vocab = c05.load_vocab()
     sources = c05.repo_sources()
     small_sources = [s for s in sources if len(s[1]) < 12000] or sources
+    catalogue = load_catalogue()
+    max_pos = ctx.scale(120, 100000)
 
-    # corpus (shared format with C05: `text <json>` lines)
+    # corpus (shared format with C05: `text <json>` lines) + the production catalogue
     clex, _ = c05.read_corpus(PROP)
+    if catalogue:
+        clex.append(catalogue)
     check_batch(ctx, "lex", clex, "corpus", stats)
     check_batch(ctx, "walk", clex, "corpus", stats)
     # unchanged repo sources
     check_batch(ctx, "lex", [s for _, s in sources], "repo sources", stats)
     check_batch(ctx, "walk", [s for _, s in sources], "repo sources", stats)
+    if catalogue and not ctx.violations:
+        check_svc_batch(ctx, [("tests.VerifCatalogue", catalogue)], "catalogue", stats, 100000)
 
-    n_lex = ctx.scale(4000, 200000)
+    n_lex = ctx.scale(3000, 200000)
     n_walk = ctx.scale(1500, 60000)
+    n_svc = ctx.scale(90, 4000)
     done = 0
-    hist = {"soup": 0, "random": 0, "relayout": 0, "mutation": 0}
+    hist = {"soup": 0, "random": 0, "relayout": 0, "mutation": 0, "grammar": 0}
     nontrivial, distinct, samples = 0, set(), []
     while done < n_lex and not ctx.violations:
         batch = []
         for _ in range(min(1000, n_lex - done)):
             r = rng.fork()
-            k = rng.weighted([("soup", 4), ("random", 2), ("relayout", 3), ("mutation", 1)])
+            k = rng.weighted([("soup", 4), ("random", 2), ("relayout", 3), ("mutation", 1), ("grammar", 1)])
             hist[k] += 1
             if k == "soup":
                 t = c05.gen_soup(r, vocab, r.range(1, 50))
@@ -552,10 +565,12 @@ def run(ctx):
                 if len(src) > 2500:
                     a = r.below(len(src) - 2500); src = src[a:a + 2500]
                 t = relayout(r, src)
+            elif k == "grammar":
+                t = relayout(r, gen_module(r))[:6000]
             else:
                 name, src = r.pick(small_sources)
                 t = c05.mutate(r, src[:3000], vocab)
-            batch.append(c05.avoid_open_signatures(t))
+            batch.append(t)
         check_batch(ctx, "lex", batch, f"generated seed={ctx.seed}", stats)
         done += len(batch)
         for t in batch:
@@ -566,35 +581,68 @@ def run(ctx):
                     nontrivial += 1
                     if len(samples) < 3 and len(t) < 70:
                         samples.append({"text": t})
+    # AST walk: every production in every variant (grammar generator + catalogue) and re-laid-out real programs
     wdone = 0
+    whist = {"grammar": 0, "grammar+layout": 0, "catalogue+layout": 0, "repo+layout": 0, "mutation": 0}
     while wdone < n_walk and not ctx.violations:
         batch = []
         for _ in range(min(500, n_walk - wdone)):
             r = rng.fork()
-            name, src = r.pick(small_sources)
-            batch.append(relayout(r, src) if r.chance(9, 10) else c05.avoid_open_signatures(c05.mutate(r, src, vocab)))
-        check_batch(ctx, "walk", batch, f"generated layouts seed={ctx.seed}", stats)
+            k = rng.weighted([("grammar", 3), ("grammar+layout", 3), ("catalogue+layout", 1 if catalogue else 0),
+                              ("repo+layout", 3), ("mutation", 1)])
+            whist[k] += 1
+            if k == "grammar":
+                t = gen_module(r)
+            elif k == "grammar+layout":
+                t = relayout(r, gen_module(r))
+            elif k == "catalogue+layout":
+                t = relayout(r, catalogue)
+            elif k == "repo+layout":
+                t = relayout(r, r.pick(small_sources)[1])
+            else:
+                t = c05.mutate(r, r.pick(small_sources)[1], vocab)
+            batch.append(t)
+        check_batch(ctx, "walk", batch, f"generated modules seed={ctx.seed}", stats)
         wdone += len(batch)
+    # language-service results at identifier positions (type-correct programs: catalogue and tests/*.sam, re-laid out)
+    sdone = 0
+    test_sources = [s for s in small_sources if s[0].startswith("tests.") and len(s[1]) < 6000]
+    while sdone < n_svc and not ctx.violations:
+        batch = []
+        for _ in range(min(60, n_svc - sdone)):
+            r = rng.fork()
+            if catalogue and r.chance(1, 2):
+                batch.append(("tests.VerifCatalogue", relayout(r, catalogue) if r.chance(3, 4) else catalogue))
+            elif test_sources:
+                name, src = r.pick(test_sources)
+                batch.append((name, relayout(r, src)))
+        check_svc_batch(ctx, batch, f"generated layouts seed={ctx.seed}", stats, max_pos)
+        sdone += len(batch)
 
+    missing = sorted(k for k in PRODUCTIONS if k not in stats["node_hist"] and k != "E.MethodAccess")
     ctx.cov.update({
-        "evaluations": done + wdone, "distinct_nontrivial": nontrivial,
+        "evaluations": done + wdone + sdone, "distinct_nontrivial": nontrivial,
         "rule": "lex texts: distinct texts containing a multi-line block comment, CR, tab, non-ASCII scalar or string literal "
                 "(the layouts where line/column bookkeeping is non-trivial); measured by regex on the generated text",
         "samples": samples, "traces_validated_against_impl": done,
-        "lex_cases": done, "walk_cases": wdone, "generator_histogram": hist,
+        "lex_cases": done, "walk_cases": wdone, "svc_cases": sdone, "generator_histogram": hist, "walk_generator_histogram": whist,
         "walk_modules_without_syntax_error": stats["walk_valid"], "walk_modules_with_syntax_error": stats["walk_syntax_error"],
-        "walk_located_nodes_checked": stats["nodes"],
-        "pending": ["pos_tracking_exact / tokens_ordered for the whole token stream (the per-path exactness lemmas wsPos_exact, "
-                    "blockEnd_pos_exact, strEnd_no_newline, advanceAll_no_newline are proved; their composition over `rawLoop` is "
-                    "not yet; the ground-truth token oracle checks it on every run)",
-                    "name_span_exact", "expression-level AST nodes in the walk (only declarations, annotations and bodies' outer locations are walked)"],
+        "walk_located_nodes_checked": stats["nodes"], "walk_node_kind_histogram": stats["node_hist"],
+        "productions_never_reached": missing,
+        "svc_query_histogram": stats["svc_hist"], "svc_error_free_modules": stats["svc_clean"],
+        "svc_modules_with_errors": stats["svc_with_errors"], "svc_positions_per_module_cap": max_pos,
+        "pending": ["comments carry no location in the AST (Comment{kind,text}); their owners' locations are walked, the comments "
+                    "themselves cannot be", "E.MethodAccess only exists after type checking (the parser emits FieldAccess); it is reached "
+                    "through the service queries only", "rename returns the whole re-printed module, not edit ranges: only `still parses` is checked"],
         "extractor_ok": extractor_ok,
     })
     ctx.assumptions += ["columns are byte columns (implementation convention); LSP UTF-16 columns differ on non-ASCII lines (observation)",
-                        "valid UTF-8 input; texts < 4 GiB"]
+                        "valid UTF-8 input; texts < 4 GiB",
+                        "a class's type-definition location deliberately starts at its type parameters (typedef/tparams overlap is exempt from the sibling rule)"]
     return ctx.finish(res, trusted=common.TRUSTED_COMMON + [
         "translator extract/c05_keywords.py; hand-written scanner model Model/Lexer.lean (shared with C05)",
-        "not modelled (oracle only): the ~60 `union` call sites of the parser productions, services query code"])
+        "production table PRODUCTIONS in vlib/c14.py (twin of `Production` in Props/C14.lean), calibrated on every tests/ and std/ source",
+        "not modelled (oracle only): the parser's productions themselves, services query code"])
 
 
 def replay(ctx, path):
@@ -606,7 +654,7 @@ def replay(ctx, path):
         line = f"{kind} " + hexs(rp["text"].encode())
         rc, impl, _ = common.run_exec(common.harness_bin(PROP), [], [line])
         print("text ", json.dumps(rp["text"])); print("impl ", impl[0])
-        orc = (token_oracle if kind == "lex" else walk_oracle)(rp["text"].encode(), impl[0])
+        orc = oracle_of(kind)(rp["text"].encode(), impl[0])
         bad = bool(orc)
         if kind == "lex":
             _, model = common.run_pair(PROP, [line])
@@ -614,5 +662,12 @@ def replay(ctx, path):
         for m in orc:
             print("ORACLE", m)
         return 1 if bad else 0
+    if rp.get("protocol") == "svc":
+        r = run_svc([(rp["module"], rp["text"])], 100000, workers=1)[0]
+        orc = [r] if r.startswith("<") else svc_oracle(rp["module"], rp["text"].encode(), r)
+        print("text ", json.dumps(rp["text"]))
+        for m in orc:
+            print("ORACLE", m)
+        return 1 if orc else 0
     print(json.dumps(data, indent=1)[:4000])
     return 1
